@@ -139,10 +139,23 @@ def stepAct (s : St) : Act → St
 
 def splitOnSemi (s : String) : List (List String) := (s.splitOn ";").map tokens
 
+/-- `ttl <durationNs> <nowUnix> <expiresAt> <disabled>` -/
+def handleTtl (toks : List String) : Out :=
+  match toks with
+  | [d, now, exp, dis] =>
+    match parseInt? d, parseInt? now, parseNat? exp, parseBool? dis with
+    | some d, some now, some exp, some dis =>
+      if exp ≥ 2 ^ 32 ∨ d ≥ 2 ^ 63 ∨ d < -(2 ^ 63) ∨ now ≥ 2 ^ 63 ∨ now < -(2 ^ 63) then badOp else
+      let r := validateTTLAt dis (ttlSeconds d) now exp
+      { model := match r with | .ok => "ttl=ok" | .expired => "ttl=expired" | .tooFar => "ttl=toofar" }
+    | _, _, _, _ => badOp
+  | _ => badOp
+
 def handle (line : String) : Out :=
   match line.splitOn "\t" with
   | [op, impl] =>
     match splitOnSemi op with
+    | ("ttl" :: rest) :: [] => handleTtl rest
     | ("dmq" :: _useed :: ctor) :: rest =>
       let implBits : List Char :=
         if impl.startsWith "acc=" then (impl.toList.drop 4).takeWhile (fun c => c = '0' || c = '1') else []
